@@ -8,6 +8,7 @@ import (
 	"fmt"
 	"math"
 	"math/rand/v2"
+	"strconv"
 	"strings"
 	"testing"
 	"unicode/utf8"
@@ -39,6 +40,10 @@ func c01Event(r *rand.Rand, content string) *mocrelay.Event {
 	nt := r.IntN(9)
 	for i := 0; i < nt; i++ {
 		n := 1 + r.IntN(5)
+		if r.IntN(12) == 0 { // a tag without any element is a legal shape for the serialisation
+			e.Tags = append(e.Tags, mocrelay.Tag{})
+			continue
+		}
 		tag := make(mocrelay.Tag, n)
 		tag[0] = vk.Pick(r, []string{"e", "p", "a", "d", "t", "client", "E", "-", "subject"})
 		for j := 1; j < n; j++ {
@@ -134,6 +139,9 @@ var c01Tampers = []c01Tamper{
 			return false
 		}
 		i := r.IntN(len(e.Tags))
+		if len(e.Tags[i]) == 0 {
+			return false
+		}
 		j := r.IntN(len(e.Tags[i]))
 		e.Tags[i][j] += "'"
 		return true
@@ -238,7 +246,7 @@ func c01WrongForms(e *mocrelay.Event) map[string][]byte {
 
 func TestVerif_C01(t *testing.T) {
 	rep := vk.NewReport(t, "C01", "exploration")
-	rep.Rule = "freshly signed events (32 fixed + seeded keys, every kind class, boundary created_at, 0-8 tags of 1-5 elements, hostile content and tag values, a complete sweep of U+0000..U+FFFF minus surrogates and 4096 astral samples), each with sampled tamperings from a 25-entry catalogue and wrong-canonicalisation forgeries; oracle = reference canonical form + SHA-256 + independent BIP-340 verifier; non-trivial = the event contains a character some JSON encoder escapes or any non-ASCII character, or is a tampering/forgery; distinct = distinct (event id, tamper class)"
+	rep.Rule = "freshly signed events (32 fixed + seeded keys, every kind class, boundary created_at, 0-8 tags of 0-5 elements, hostile content and tag values, a complete sweep of U+0000..U+FFFF minus surrogates and 4096 astral samples), each with sampled tamperings from a 25-entry catalogue, ids/signatures with a 00 byte at either end cut off or padded and wrong-canonicalisation forgeries; oracle = reference canonical form + SHA-256 + independent BIP-340 verifier; non-trivial = the event contains a character some JSON encoder escapes or any non-ASCII character, or is a tampering/forgery; distinct = distinct (event id, tamper class)"
 	rep.Assume("the independent BIP-340 verifier passed the official test vectors at start-up")
 	defer rep.Finish()
 
@@ -433,6 +441,60 @@ func TestVerif_C01(t *testing.T) {
 		rep.Count("code_points_swept", int64(len(blocks[i])))
 	})
 	_ = swept
+
+	// (2b) hex strings of the wrong length: ids and signatures whose last (or first) byte is 00
+	// are ground out, then that byte is cut off, or a 00 byte is added: never authentic
+	nGrind := vk.N(4, 40)
+	vk.Parallel(nGrind, func(i int) {
+		r := vk.RNG("C01/hexlen", i)
+		k := keys[r.IntN(len(keys))]
+		field := []string{"id", "sig"}[i%2]
+		end := []string{"last", "first"}[i/2%2]
+		var e *mocrelay.Event
+		for try := 0; try < 4000; try++ {
+			c := c01Event(r, "grind "+strconv.Itoa(try))
+			vk.Sign(k, c)
+			h := c.ID
+			if field == "sig" {
+				h = c.Sig
+			}
+			if end == "last" && strings.HasSuffix(h, "00") || end == "first" && strings.HasPrefix(h, "00") {
+				e = c
+				break
+			}
+		}
+		if e == nil {
+			return // (1 - 1/256)^4000: does not happen
+		}
+		if !c01Reported(e) {
+			rep.Violation("verify/rejects-authentic/plain", "a correctly signed event is reported not authentic", map[string]any{"event": e})
+			return
+		}
+		for _, variant := range []string{"cut", "pad"} {
+			g := vk.CloneEvent(e)
+			h := &g.ID
+			if field == "sig" {
+				h = &g.Sig
+			}
+			switch {
+			case variant == "cut" && end == "last":
+				*h = (*h)[:len(*h)-2]
+			case variant == "cut" && end == "first":
+				*h = (*h)[2:]
+			case variant == "pad" && end == "last":
+				*h += "00"
+			default:
+				*h = "00" + *h
+			}
+			rep.Eval(1)
+			rep.Count("hex_length_alterations", 1)
+			rep.Nontrivial(e.ID + "/hexlen/" + field + "/" + variant + "/" + end)
+			if c01Reported(g) {
+				rep.Violation("verify/accepts-forgery/"+field+"-"+variant+"-"+end+"-00-byte", fmt.Sprintf("a signed event whose %s had its %s byte (00) %s is still reported authentic", field, end, map[string]string{"cut": "cut off", "pad": "duplicated by padding"}[variant]),
+					map[string]any{"original": e, "altered": g})
+			}
+		}
+	})
 
 	// (3) end to end: EVENT frames over real WebSocket connections behind Relay.ServeHTTP
 	// (the gate the property is anchored in): genuine hostile events must reach the
